@@ -34,10 +34,65 @@ SPEC_MUTANTS = [
     ("shaving-never-undoes-an-unrefuted-probe", "NucsMech.tla",
      "below == IF has THEN doms[Top - 1]", "below == IF TRUE THEN doms[Top - 1]", "shaving",
      ["C10_Sound", "C02_Complete"], {"C10_Sound", "C02_Complete"}),
+    ("second-call-without-restart", "NucsMech.tla",
+     "/\\ doms' = << P.doms >> /\\ ne' = << AllTrue(NProp(P)) >> /\\ upd' = << >> /\\ trig' = AllTrue(NProp(P))\n  /\\ prev' = 0 /\\ pc' = \"consistency\"",
+     "/\\ UNCHANGED <<doms, ne, upd, trig>>\n  /\\ prev' = 0 /\\ pc' = \"consistency\"", "mixed",
+     ["C01_ReportedSat", "C02_Complete", "C03_Optimal", "C03_NeverSearchesEmpty"], {"C01_ReportedSat", "C02_Complete", "C03_Optimal", "C03_NeverSearchesEmpty"}),
     ("tighten-does-not-exclude-the-incumbent", "NucsMech.tla",
      "THEN [P.doms EXCEPT ![ObjDom] = <<@[1], val - 1 - OffOf(P, P.cfg.var)>>]",
      "THEN [P.doms EXCEPT ![ObjDom] = <<@[1], val - OffOf(P, P.cfg.var)>>]", "opt", ["TypeOK"], {"Terminates"}),
 ]
+
+
+# mutated copies of the mechanism must fail the MATCHING CLAUSE of Layer A in the refinement check (spec/MechRefines.tla):
+# the clauses that judge the real engine are strong enough to catch, at design level, the kind of change they are for
+REFINE_MUTANTS = [
+    # (name, file, old, new, family, expected clause among the failed ones)
+    ("min-value-does-not-announce-ground", "MechOps.tla",
+     "   upd    |-> << <<d - 1, GroundEv(<<v + 1, box[d][2]>>, EvMin)>> >>,\n   events |-> EvMax + EvGround]",
+     "   upd    |-> << <<d - 1, GroundEv(<<v + 1, box[d][2]>>, EvMin)>> >>,\n   events |-> EvMax]", "core", {"C09:announces"}),
+    ("pop-never-reconsiders-previous", "MechOps.tla",
+     "ELSE IF prev # 0 /\\ trig[prev] THEN prev ELSE 0", "ELSE 0", "core", {"C08:fixpoint", "C08:greatest-fixpoint", "C01:sat-all"}),
+    ("backtrack-keeps-the-flags-of-the-level-it-leaves", "NucsMech.tla",
+     "ELSE /\\ doms' = SubSeq(doms, 1, Top - 1) /\\ ne' = SubSeq(ne, 1, Top - 1) /\\ upd' = SubSeq(upd, 1, Top - 2)",
+     "ELSE /\\ doms' = SubSeq(doms, 1, Top - 1) /\\ ne' = Append(SubSeq(ne, 1, Top - 2), ne[Top]) /\\ upd' = SubSeq(upd, 1, Top - 2)",
+     "mixed", {"C07:restores-flags"}),
+    ("choice-not-counted", "NucsMech.tla", "/\\ stats' = [Stat(CH) EXCEPT ![DEPTH]", "/\\ stats' = [stats EXCEPT ![DEPTH]", "core",
+     {"C17:stats-exact"}),
+    ("shaving-never-gives-an-unrefuted-value-back", "NucsMech.tla",
+     "below == IF has THEN doms[Top - 1]", "below == IF TRUE THEN doms[Top - 1]", "shaving", {"C10:probe-restore"}),
+    ("backtrack-forgets-the-wake-up", "NucsMech.tla",
+     "/\\ trig' = AddProps(P, trig, ne[Top - 1], upd[Top - 1][1] + 1, upd[Top - 1][2])\n       /\\ stats' = Stat(BT)",
+     "/\\ trig' = trig\n       /\\ stats' = Stat(BT)", "mixed", {"C09:moved-bounds-not-announced-to-the-watchers"}),
+]
+
+
+def refine_controls(tmp, out):
+    import os, re, subprocess
+    from common import TLC_CP
+    ok = True
+    for name, fname, old, new, fam, expected in REFINE_MUTANTS:
+        d = tmp / f"refine-{name}"
+        shutil.copytree(SPEC, d)
+        text = (d / fname).read_text()
+        if old not in text:
+            out.append({"control": "refines:" + name, "ok": False, "why": "pattern not found in " + fname})
+            ok = False
+            continue
+        (d / fname).write_text(text.replace(old, new, 1))
+        f, n = mc.gen_family(tmp, fam, 1500, 3)
+        cfg = d / "ctrl.cfg"
+        cfg.write_text("SPECIFICATION RSpec\nCHECK_DEADLOCK FALSE\nINVARIANT Refines\n")
+        meta = tmp / f"meta-refine-{name}"
+        cmd = ["java", "-XX:+UseParallelGC", "-Xss16m", "-cp", TLC_CP, "tlc2.TLC", "-workers", str(NCPU), "-metadir", str(meta),
+               "-noGenerateSpecTE", "-config", str(cfg), str(d / "MechRefines.tla")]
+        p = subprocess.run(cmd, cwd=str(d), env=dict(os.environ, FAMILY=str(f)), capture_output=True, text=True, timeout=900)
+        text_out = p.stdout + p.stderr
+        got = set(re.findall(r'"(C\d\d:[^"]+)"', "".join(re.findall(r"^/\\ bad = (\{.*\})$", text_out, re.M))))
+        hit = "Invariant Refines is violated" in text_out and bool(got & expected)
+        out.append({"control": "refines:" + name, "ok": hit, "failed_clauses": sorted(got), "expected_one_of": sorted(expected)})
+        ok = ok and hit
+    return ok
 
 
 def spec_controls(tmp, out):
@@ -312,8 +367,8 @@ def mp_controls(tmp, out):
 
 
 NEXT_ACTIONS = ["CallConsistency", "BCReturn", "Filter", "SearchBound", "SearchBranch", "SearchFail", "Yield", "ResumeEnum",
-                "Exhausted", "Incumbent", "OptExhausted", "ShLoop", "ShMain", "ShPick", "ShJudge"]
-WITNESSES = [("mixed", ["Never_Solution", "Never_Done", "Never_Disabled", "Never_Backtrack", "Never_PassFails", "Never_ThreeLevels"]),
+                "Exhausted", "Incumbent", "OptExhausted", "ShLoop", "ShMain", "ShPick", "ShJudge", "CallAgain"]
+WITNESSES = [("mixed", ["Never_Solution", "Never_Done", "Never_Disabled", "Never_Backtrack", "Never_PassFails", "Never_ThreeLevels", "Never_SecondCall"]),
              ("opt", ["Never_Incumbent"]), ("shaving", ["Never_ShavingShaves"]), ("cap", ["Never_CapacityError"])]
 
 
@@ -357,6 +412,7 @@ def run(tier, seed, replay):
         ok = vacuity_controls(tmp, out) and ok
         ok = trace_controls(tmp, out) and ok
         ok = spec_controls(tmp, out) and ok
+        ok = refine_controls(tmp, out) and ok
     (VERIF / "out").mkdir(exist_ok=True)
     (VERIF / "out" / "controls.json").write_text(json.dumps(out, indent=1))
     for c in out:
